@@ -256,8 +256,8 @@ func main() {
 	harness.Main(harness.Check{
 		Property: "C04",
 		Level:    "model_checking",
-		Rule:     "workloads: client sender with 2 envelopes and server sender with 1+1 envelopes, kinds from {small message, message larger than the pipe, notification, request, unmatched response} (125 combinations) x channel buffer {0,1} x transport queue {0,1} (in-process) / pipe capacity {64B, 64KiB} (TCP), optional second client sender; one draining consumer per side; all schedules within the deviation bound (delay bounding); the stall scenarios additionally let an I/O deadline fire early (write stall); oracle: delivered multiset == successfully sent multiset, equal content, per-(sender,kind) order; distinct outcome = distinct observation log",
-		Assume:   []string{"WebSocket transports are not explored under the scheduler (real sockets); TLS is covered by C09/C12", "payload sizes up to 120 bytes against a 64-byte pipe stand for 'larger than the socket buffer'"},
+		Rule:     "workloads: client sender with 2 envelopes and server sender with 1+1 envelopes, kinds from {small message, message larger than the pipe, notification, request, unmatched response} (125 combinations) x channel buffer {0,1} x transport queue {0,1} (in-process) / pipe capacity {64B, 64KiB} (TCP, WebSocket), optional second client sender; one draining consumer per side; all schedules within the deviation bound (delay bounding); the stall scenarios additionally let an I/O deadline fire early (write stall); oracle: delivered multiset == successfully sent multiset, equal content, per-(sender,kind) order; distinct outcome = distinct observation log",
+		Assume:   []string{"WebSocket: the real websocketTransport over gorilla connections opened by a real handshake on a virtual pipe (the listener's HTTP server and wss are not part of it); TLS is covered by C09/C12", "payload sizes up to 120 bytes against a 64-byte pipe stand for 'larger than the socket buffer'"},
 		Scenarios: []harness.Scenario{
 			mk("inproc", "inproc", 0, false, base, 1, 2),
 			mk("tcp/cap64KiB", "tcp", 64<<10, false, base, 1, 1),
